@@ -77,7 +77,13 @@ Definition op_family : list term :=
     T (OForall [("j", TInt); ("i", TInt); ("x", TBool)]) [T OOr [bx; T OLt [ii; ij]]];
     T (OExists [("b", TBV 4); ("a b", TBool); ("i", TInt)]) [T OAnd [bq; T (OBVRel BUlt) [b4; c4]; T OLe [ii; ij]]];
     T (OForall [("y", TBool); ("x", TBool)]) [T (OExists [("x", TBool); ("y", TBool)]) [T OIff [bx; byy]]];
-    T (OForall [("b", TBV 4); ("b", TBV 4)]) [T (OBVRel BUlt) [b4; c4]]
+    T (OForall [("b", TBV 4); ("b", TBV 4)]) [T (OBVRel BUlt) [b4; c4]];
+    (* string constants with a newline, a tab, control characters, backslashes, text that looks
+       like an escape (\u{61}, \x41), quotes, bars and parentheses *)
+    T OEquals [ss; TStrC [116; 119; 111; 10; 108; 105; 110; 101; 115]];
+    T OEquals [T (OStr SConcat) [ss; TStrC [9; 13; 0; 1; 31; 127]; st]; TStrC [92; 117; 123; 54; 49; 125]];
+    T (OForall [("s", TStr)]) [T (OExists [("t", TStr)])
+       [T OOr [T OEquals [ss; TStrC [92; 120; 52; 49; 92; 92; 34; 92]]; T (OStr SContains) [st; TStrC [124; 40; 59; 41; 124; 32]]]]]
   ].
 
 (* ---- the Core / linear-arithmetic family: every term with at most two operator levels *)
